@@ -360,13 +360,13 @@ def mutate_case(rng, case):
 
 
 CLAIMED = True
-LEVEL_TEXT = ("Line-AST level. Theorems (all line lists / all circuits, all set orders): every gate line is read into a node whose function is the "
-              "line's function of its operand list with multiplicities (parity cancellation proved for all lists, idempotent gates for all lists); "
-              "for every well-formed line list the closed-form result has exactly the declared inputs and outputs, its consistent valuations are "
-              "exactly the solutions of the text's equations, and each DFF is a registered dff instance between its D and Q nets; the writer's "
-              "output for a lint-clean blackbox-free circuit is well-formed and its closed-form reading is the original circuit (constants included). "
-              "That the mirrored four-pass reader (construction API, reader's pass order) computes the closed form is decided per generated case "
-              "in Coq (statement kept as a Definition), not proved for all line lists.")
+LEVEL_TEXT = ("Line-AST level. Theorems (all gate names, operand lists, valuations / all well-formed line lists in any line order): the regenerated "
+              "gate-name alternation with BUFF and case folding is exactly the documented dialect; the node handed to Circuit.add for a gate line computes "
+              "the gate over its operand list with multiplicities (parity cancellation proved for all lists: XOR(a,a)=0, XNOR(a,a)=1; idempotent gates for "
+              "all lists); the closed form of the reader's result has exactly the declared inputs and outputs, every consistent valuation of it solves all "
+              "equations of the text, and each DFF line is a registered dff instance between its D and Q nets. Kept as unproved full statements and decided "
+              "per generated case in Coq: that the mirrored four-pass reader (construction API, reader's pass order) returns the closed form; that every "
+              "solution of the text extends to a consistent valuation; the writer/reader round trip for all set orders (constants included).")
 LEVEL_NOTE = ("Trusted: Coq kernel + vm_compute, std++, Base/Api.v as a model of Circuit.add/connect/add_blackbox (validated by C07), translator shapes "
               "for io.py (skeleton comparison, fail closed; the scan patterns are compared literally with the documented ones), the harness renderer "
               "and tokeniser. The character-level scanning layer (re.findall with the four patterns) is NOT modelled: it is tied by correspondence only, "
